@@ -181,7 +181,8 @@ fn oracle(c: &Case, st: &mut Stats) -> Result<(), String> {
     let bytes = {
         let mut w = ArchiveWriter::from_config(Vec::new(), prog::writer_config(layers, 1, &keys.publics)).map_err(|e| format!("HARNESS: {e:?}"))?;
         for (i, n) in names.iter().enumerate() {
-            let d = data::gen(DataClass::Text, util::mix(c.seed as u64, "c16", i as u64), 10 + (i * 37) % 300);
+            // one member in four is empty
+            let d = data::gen(DataClass::Text, util::mix(c.seed as u64, "c16", i as u64), if (i + c.seed as usize) % 4 == 3 { 0 } else { 10 + (i * 37) % 300 });
             w.add_file(n, d.len() as u64, d.as_slice()).map_err(|e| format!("HARNESS: add_file: {e:?}"))?;
             contents.insert(n.clone(), d);
         }
